@@ -31,6 +31,9 @@ type natSpec struct {
 	// IdlePairs: static wan/local pairs configured on a NAPT router (StaticIPs "wan/local" without the 1:1 mode); legal and
 	// without meaning for a NAPT: the expected behaviour is that of the same router without them
 	IdlePairs map[string]string `json:"idle_pairs,omitempty"`
+	// Hairpin: NATType.Hairpinning is set. The option is documented as not implemented: traffic of a LAN host to an
+	// external address of its own NAT keeps going through the parent router, exactly once
+	Hairpin bool `json:"hairpinning,omitempty"`
 }
 
 type routerSpec struct {
@@ -203,7 +206,7 @@ func (w *world) build() error {
 	for i, rs := range c.Routers {
 		cfg := &vnet.RouterConfig{Name: rs.Name, CIDR: rs.CIDR, LoggerFactory: vn.Silent(), MinDelay: time.Duration(rs.DelayUs) * time.Microsecond, MaxJitter: time.Duration(rs.JitterUs) * time.Microsecond, QueueSize: c.QueueSize}
 		if rs.Parent >= 0 {
-			nt := &vnet.NATType{Mode: vnet.NATMode(rs.NAT.Mode), MappingBehavior: vnet.EndpointDependencyType(rs.NAT.MapB), FilteringBehavior: vnet.EndpointDependencyType(rs.NAT.FilB)}
+			nt := &vnet.NATType{Mode: vnet.NATMode(rs.NAT.Mode), MappingBehavior: vnet.EndpointDependencyType(rs.NAT.MapB), FilteringBehavior: vnet.EndpointDependencyType(rs.NAT.FilB), Hairpinning: rs.NAT.Hairpin}
 			cfg.NATType = nt
 			if rs.NAT.Mode == 1 {
 				for _, wip := range rs.WANs {
@@ -991,6 +994,7 @@ func genCase(rng *rand.Rand) *tcase {
 	cidrs := []string{"10.%d.0.0/16", "172.16.%d.0/24", "192.168.%d.0/24"}
 	depthOf := []int{0}
 	usedWan := map[string]bool{}
+	var hairpin []int // indices of NAPT routers (candidates for the Hairpinning option, drawn at the end)
 	for i := 0; i < nLan; i++ {
 		// parent: any router of depth < 3
 		var cands []int
@@ -1026,6 +1030,7 @@ func genCase(rng *rand.Rand) *tcase {
 			}
 		} else {
 			rs.NAT.MapB, rs.NAT.FilB = rng.Intn(3), rng.Intn(3)
+			hairpin = append(hairpin, len(c.Routers))
 			if rng.Intn(2) == 0 {
 				rs.WANs = []string{mkWan()}
 				if rng.Intn(4) == 0 {
@@ -1147,6 +1152,21 @@ func genCase(rng *rand.Rand) *tcase {
 			p3 = append(p3, sendSpec{Sock: pi, Dst: fmt.Sprintf("seen:%d", rng.Intn(1000)), Size: sizes[rng.Intn(len(sizes))], Count: 1 + rng.Intn(4)})
 		}
 	}
+	// also in phase 3: every socket sends to the address under which two other sockets were seen from outside - for
+	// sockets of one LAN that is an external address of their own NAT (through the parent and back, exactly once)
+	for si, ss := range c.Socks {
+		if ss.Connect != "" {
+			continue
+		}
+		for k := 0; k < 2; k++ {
+			p3 = append(p3, sendSpec{Sock: si, Dst: fmt.Sprintf("extof:%d", rng.Intn(len(c.Socks))), Size: 8 + rng.Intn(100), Count: 1 + rng.Intn(3)})
+		}
+	}
+	for _, ri := range hairpin {
+		if rng.Intn(3) == 0 {
+			c.Routers[ri].NAT.Hairpin = true
+		}
+	}
 	// phase 4: phase 1 again (mappings must be reused)
 	c.Phases = [][]sendSpec{p1, nil, p3, p1}
 	// a quarter of the cases: bounded router queues and a steady phase (exclusive with the handover phase)
@@ -1212,6 +1232,34 @@ func runCase(c *tcase, r *res.Result) (*viol, string) {
 				ip = t.host.ips[0]
 			}
 			return vn.UDP(ip, t.port)
+		case strings.HasPrefix(d, "extof:"):
+			// the address under which socket k was seen by some other socket (its NAT's external address when it sits behind
+			// one): for a sender in the same LAN this is a datagram to an external address of its own NAT
+			var k int
+			fmt.Sscanf(d, "extof:%d", &k)
+			w.smu.Lock()
+			ids := map[uint64]bool{}
+			for _, sd := range w.allSend {
+				if sd.sock.idx == k%len(w.socks) && sd.n >= 8 {
+					ids[sd.id] = true
+				}
+			}
+			w.smu.Unlock()
+			for _, t := range w.socks {
+				if t == s {
+					continue
+				}
+				t.mu.Lock()
+				for _, g := range t.recv {
+					if len(g.payload) >= 8 && ids[vn.PayloadID(g.payload)] && !strings.HasPrefix(g.src, "127.") {
+						a, _ := net.ResolveUDPAddr("udp", g.src)
+						t.mu.Unlock()
+						return a
+					}
+				}
+				t.mu.Unlock()
+			}
+			return nil
 		case strings.HasPrefix(d, "seen:"):
 			// an external source address this socket has received from (unsolicited probe / reply target)
 			s.mu.Lock()
